@@ -273,6 +273,7 @@ func c16Conc(c *Ctx, name string, b vsched.Bounds) Sched {
 	var e *env.Env
 	return Sched{
 		Name:   name,
+		Opt:    vsched.Options{TolerateDivergence: true},
 		Bounds: b,
 		Setup: func() ([]func(), func(*vsched.Exec) *vsched.Violation, func() string) {
 			vsched.IOPoints = true // the real proxy is in the loop: its hand-over to the network is a scheduling point
